@@ -53,6 +53,9 @@ fn run_c01(out: &mut Out, tier: &str, rng: &mut Rng) {
 const AUTH_NOTE: &str = "; authority level: random configurations of known units under the real NetworkAuthority (receive / tick / command clones), random histories of unit frames, the same frames from foreign nodes, random frames, cycles, motion and engine commands, compared event by event with the authority model";
 
 fn run_c02(out: &mut Out, tier: &str, rng: &mut Rng) {
+    // a network with SEVERAL hydraulic units (and the other units of the shipped network): a command reaches every one of
+    // them, correctly addressed (the authority histories of C01)
+    authgen::run_c01_auth(out, tier, rng);
     // an accepted command must REACH the network's handler: bursts written back to back by a client, through the real
     // session, command channel and command task; the newest commands (the final stop-all) are handled afterwards
     for burst in [1usize, 16, 17, 40] {
@@ -127,6 +130,11 @@ fn run_c05(out: &mut Out, tier: &str, rng: &mut Rng) {
             c15::via_session(out, networks, burst);
         }
     }
+    // "other sessions are unaffected": several clients connected AT ONCE to the real server (its accept loop included), each is
+    // served while the others stay connected
+    for clients in [2usize, 3] {
+        c15::via_server(out, clients);
+    }
 }
 
 fn run_c09(out: &mut Out, tier: &str, rng: &mut Rng) {
@@ -145,6 +153,9 @@ fn run_c06(out: &mut Out, tier: &str, rng: &mut Rng) {
     authgen::run_c06_auth(out, tier, rng);
     authgen::run_c06_requests(out, tier, rng);
     authgen::run_c06_sources(out, tier, rng);
+    for ms in if tier == "thorough" { vec![301u64, 1000, 3000, 6000] } else { vec![301u64, 1200] } {
+        c16::concurrent_stress(out, ms);
+    }
     out.rule.push_str("; authority level: raw can_frames with every DLC 0..8 injected into the real NetworkAuthority::recv on the emulated bus, followed by a cycle and commands whose frames must still appear");
 }
 
